@@ -129,17 +129,15 @@ func (h *ConsistentHash) Remove(node any) {
 
 	for i := 0; i < h.replicas; i++ {
 		hash := h.hashFunc([]byte(nodeRepr + strconv.Itoa(i)))
-		if !h.removeRingNode(hash, nodeRepr) {
-			// 此节点在该位置上没有虚拟节点（副本数小于 h.replicas），
-			// 该位置可能属于其他节点，不能从 keys 中删除。
-			continue
-		}
-
-		index := sort.Search(len(h.keys), func(i int) bool {
-			return h.keys[i] >= hash
-		})
-		if index < len(h.keys) && h.keys[index] == hash {
-			h.keys = append(h.keys[:index], h.keys[index+1:]...)
+		// 此节点在该位置上没有虚拟节点时（副本数小于 h.replicas），该位置可能属于其他节点，
+		// 不能从 keys 中删除；此节点有多个虚拟节点落在同一位置时，删除同样多个位置。
+		for n := h.removeRingNode(hash, nodeRepr); n > 0; n-- {
+			index := sort.Search(len(h.keys), func(i int) bool {
+				return h.keys[i] >= hash
+			})
+			if index < len(h.keys) && h.keys[index] == hash {
+				h.keys = append(h.keys[:index], h.keys[index+1:]...)
+			}
 		}
 	}
 
@@ -159,8 +157,8 @@ func (h *ConsistentHash) containsNode(nodeRepr string) bool {
 	return ok
 }
 
-// removeRingNode 从给定位置移除节点，并返回该位置上是否有此节点。
-func (h *ConsistentHash) removeRingNode(hash uint64, nodeRepr string) (removed bool) {
+// removeRingNode 从给定位置移除节点，并返回该位置上移除的此节点的虚拟节点数。
+func (h *ConsistentHash) removeRingNode(hash uint64, nodeRepr string) (removed int) {
 	if nodes, ok := h.ring[hash]; ok {
 		newNodes := nodes[:0]
 		for _, x := range nodes {
@@ -168,7 +166,7 @@ func (h *ConsistentHash) removeRingNode(hash uint64, nodeRepr string) (removed b
 				newNodes = append(newNodes, x)
 			}
 		}
-		removed = len(newNodes) < len(nodes)
+		removed = len(nodes) - len(newNodes)
 		if len(newNodes) > 0 {
 			h.ring[hash] = newNodes
 		} else {
